@@ -48,7 +48,13 @@ func BaseFile() *File {
 		{Enum: &Enum{Name: "Kind", Values: []*EnumValue{{Name: "A", Explicit: &zero}, {Name: "B"}}}},
 		{Struct: &Struct{Kind: "struct", Name: "Thing", Fields: []*Field{{ID: 1, Name: "n", Req: "default", Type: T("i32")}}}},
 		{Struct: &Struct{Kind: "exception", Name: "BaseErr", Fields: []*Field{{ID: 1, Name: "msg", Req: "default", Type: T("string")}}}},
-		{Service: &Service{Name: "BaseSvc", Methods: []*Method{{Name: "basePing", Args: nil}, {Name: "baseEcho", Ret: T("i32"), Args: []*Field{{ID: 1, Name: "v", Req: "default", Type: T("i32")}}}}}},
+		// the include uses its own declarations as types, too
+		{Struct: &Struct{Kind: "struct", Name: "Carrier", Fields: []*Field{
+			{ID: 1, Name: "k", Req: "default", Type: T("Kind")}, {ID: 2, Name: "t", Req: "default", Type: T("Thing")},
+			{ID: 3, Name: "ok", Req: "optional", Type: T("Kind")}, {ID: 4, Name: "ks", Req: "default", Type: List(T("Kind"))},
+			{ID: 5, Name: "ts", Req: "default", Type: Map(T("string"), T("Thing"))}, {ID: 6, Name: "i", Req: "default", Type: T("id2")}}}},
+		{Service: &Service{Name: "BaseSvc", Methods: []*Method{{Name: "basePing", Args: nil}, {Name: "baseEcho", Ret: T("i32"), Args: []*Field{{ID: 1, Name: "v", Req: "default", Type: T("i32")}}},
+			{Name: "baseKind", Ret: T("Thing"), Args: []*Field{{ID: 1, Name: "k", Req: "default", Type: T("Kind")}}, Throws: []*Field{{ID: 1, Name: "e", Req: "default", Type: T("BaseErr")}}}}}},
 	}}
 }
 
@@ -65,6 +71,8 @@ func Leaves() []Leaf {
 		{Name: "string", Base: "string", Hashable: true},
 		{Name: "binary", Base: "binary"},
 		{Name: "Color", Needs: []*Decl{localEnum()}, Base: "enum", Hashable: true},
+		// an enum with implicit numbering: its first member is the zero value of the generated type
+		{Name: "Shade", Needs: []*Decl{{Enum: &Enum{Name: "Shade", Values: []*EnumValue{{Name: "DARK"}, {Name: "LIGHT"}}}}}, Base: "enum", Hashable: true},
 		{Name: "Point", Needs: []*Decl{localStruct()}, Base: "struct"},
 		{Name: "Choice", Needs: []*Decl{localUnion()}, Base: "union"},
 		{Name: "Oops", Needs: []*Decl{localException()}, Base: "exception"},
@@ -320,6 +328,31 @@ func DeclAtoms() []Atom {
 		&Decl{Service: &Service{Name: "Child", Extends: "base.BaseSvc", Methods: []*Method{{Name: "childPing"}}}})
 	add("service/include-types", "service", true, nil,
 		&Decl{Service: &Service{Name: "Svc", Methods: []*Method{{Name: "get", Ret: T("base.Thing"), Args: []*Field{{ID: 1, Name: "k", Req: "default", Type: T("base.Kind")}, {ID: 2, Name: "i", Req: "default", Type: T("base.id2")}}, Throws: []*Field{{ID: 1, Name: "e", Req: "default", Type: T("base.BaseErr")}}}}}})
+	// annotations on every kind of declaration that takes them (one, two and four per site)
+	{
+		a1 := []Annot{{"deprecated", "use other"}}
+		a2 := []Annot{{"first", "1"}, {"second", "two words"}}
+		a4 := []Annot{{"zeta", "z"}, {"alpha", "a"}, {"mid", "m"}, {"beta", "b"}}
+		one := 1
+		for _, ta := range []struct {
+			tag string
+			an  []Annot
+		}{{"1", a1}, {"2", a2}, {"4", a4}} {
+			tag, an := ta.tag, ta.an
+			add("annotations/typedef/"+tag, "annotations", false, nil, &Decl{Typedef: &Typedef{Name: "Label", Type: T("string"), Annots: an}})
+			add("annotations/enum-and-values/"+tag, "annotations", false, nil,
+				&Decl{Enum: &Enum{Name: "Mood", Annots: an, Values: []*EnumValue{{Name: "GOOD", Annots: an}, {Name: "BAD", Explicit: &one}, {Name: "UGLY", Annots: a1}}}})
+			add("annotations/const/"+tag, "annotations", false, nil, &Decl{Const: &Const{Name: "LIMIT", Type: T("i32"), Value: Int(7), Annots: an}})
+			add("annotations/service-and-methods/"+tag, "annotations", false, []*Decl{localException()},
+				&Decl{Service: &Service{Name: "Svc", Annots: an, Methods: []*Method{
+					{Name: "first", Annots: an},
+					{Name: "second", Ret: T("i32"), Args: []*Field{{ID: 1, Name: "a", Req: "default", Type: T("i32"), Annots: a1}}, Throws: []*Field{{ID: 1, Name: "e", Req: "default", Type: T("Oops")}}, Annots: an},
+					{Name: "third", Oneway: true, Annots: a1},
+					{Name: "plain"}}}})
+			add("annotations/scope-and-operations/"+tag, "annotations", false, []*Decl{localStruct()},
+				&Decl{Scope: &Scope{Name: "Events", Prefix: "foo.{user}", Annots: an, Ops: []*Op{{Name: "Created", Type: T("Point"), Annots: an}, {Name: "Gone", Type: T("Point")}}}})
+		}
+	}
 	// names are scoped by their container: two declarations of one kind may use the same inner names
 	{
 		one, five := 1, 5
@@ -346,6 +379,19 @@ func DeclAtoms() []Atom {
 				{Name: "first", Args: []*Field{fl(1, "a", "i32"), fl(2, "b", "string")}, Throws: []*Field{fl(1, "e", "Oops")}},
 				{Name: "second", Ret: T("i32"), Args: []*Field{fl(1, "a", "string"), fl(2, "b", "i32")}, Throws: []*Field{fl(1, "e", "Oops")}}}}})
 	}
+	// the same bare name declared as different kinds in the main file and in the include, both used
+	add("scoping/local-struct-named-like-included-enum", "struct", true, nil,
+		&Decl{Struct: &Struct{Kind: "struct", Name: "Kind", Fields: []*Field{{ID: 1, Name: "n", Req: "default", Type: T("i32")}}}},
+		&Decl{Struct: &Struct{Kind: "struct", Name: "Holder", Fields: []*Field{
+			{ID: 1, Name: "mine", Req: "default", Type: T("Kind")}, {ID: 2, Name: "theirs", Req: "default", Type: T("base.Kind")},
+			{ID: 3, Name: "both", Req: "optional", Type: Map(T("base.Kind"), T("Kind"))}}}},
+		&Decl{Service: &Service{Name: "Svc", Methods: []*Method{{Name: "swap", Ret: T("base.Kind"), Args: []*Field{{ID: 1, Name: "k", Req: "default", Type: T("Kind")}}}, {Name: "back", Ret: T("Kind"), Args: []*Field{{ID: 1, Name: "k", Req: "default", Type: T("base.Kind")}}}}}})
+	add("scoping/local-enum-named-like-included-struct", "enum", true, nil,
+		&Decl{Enum: &Enum{Name: "Thing", Values: []*EnumValue{{Name: "ONE"}, {Name: "TWO"}}}},
+		&Decl{Struct: &Struct{Kind: "struct", Name: "Holder", Fields: []*Field{
+			{ID: 1, Name: "mine", Req: "default", Type: T("Thing")}, {ID: 2, Name: "theirs", Req: "default", Type: T("base.Thing")},
+			{ID: 3, Name: "both", Req: "optional", Type: Map(T("Thing"), T("base.Thing"))}}}},
+		&Decl{Service: &Service{Name: "Svc", Methods: []*Method{{Name: "swap", Ret: T("base.Thing"), Args: []*Field{{ID: 1, Name: "k", Req: "default", Type: T("Thing")}}}, {Name: "back", Ret: T("Thing"), Args: []*Field{{ID: 1, Name: "k", Req: "default", Type: T("base.Thing")}}}}}})
 	// two different exception types with the same bare name, one local and one from the include, in
 	// one throws list (both orders), and an included exception next to an unrelated local one
 	localBaseErr := &Decl{Struct: &Struct{Kind: "exception", Name: "BaseErr", Fields: []*Field{{ID: 1, Name: "code", Req: "default", Type: T("i32")}}}}
